@@ -4,7 +4,8 @@ Extracted from the *preprocessed* (cc -E, this platform's configuration) src/cor
   * the expression of janet_loop_done (negated disjunction, list of disjuncts),
   * the guard of janet_loop1's poll phase and the text of its "drop stale timeouts" loop,
   * every site that increments / decrements  listener_count  (janet_ev_inc_refcount / janet_ev_dec_refcount /
-    janet_atomic_inc|dec(&...listener_count)) with its enclosing function and chain of enclosing conditions,
+    janet_atomic_inc|dec(&...listener_count)) with its enclosing function (the chain of enclosing conditions is kept for the
+    report only; the conditions are checked path by path, see tools/gen/ctrpaths.py),
   * every janet_gcroot / janet_gcunroot made by event-loop operations (ev.c, os.c, net.c) with function and argument,
   * whether the pending-fiber root taken on threaded channels has its unroot sites.
 The Lean side (Props/C20.lean) proves these tables equal to the ones the hand-written model mirrors, so any added,
@@ -285,7 +286,10 @@ def extract(tree):
     sp = [gs for f, fnname, k, gs in res["counter"] if fnname == "janet_ev_handle_selfpipe" and k == "-"]
     if len(sp) != 1:
         raise ExtractError("janet_ev_handle_selfpipe: expected exactly one decrement of listener_count, found %d" % len(sp))
-    res["selfpipe_dec_needs_cb"] = any("response.cb" in g for g in sp[0])
+    # does the reader un-count only events that have a callback?  Read off the extracted paths (tools/gen/ctrpaths.py: a path that
+    # reads an event without callback and does not decrement), not off the text of the enclosing conditions
+    from . import ctrpaths
+    res["selfpipe_dec_needs_cb"] = ctrpaths.selfpipe_dec_needs_cb(tree)
     res.update(selfpipe_shape(fn))
     return res
 
@@ -367,7 +371,8 @@ def render(tree):
     o.append("/-- janet_loop1: loop dropping stale timeouts before polling (phase 3) -/")
     o.append("abbrev staleLoop : String := " + _lstr(r["stale_loop"]))
     o.append("")
-    o.append("/-- every site that changes `listener_count`: (file, function, \"+\" | \"-\", enclosing conditions outermost first) -/")
+    o.append("/-- every site that changes `listener_count`: (file, function, \"+\" | \"-\", enclosing conditions outermost first; informative only: "
+             "the conditions are checked on the paths of Gen/CounterPaths.lean) -/")
     o.append("abbrev counterSites : List (String × String × String × List String) := [")
     o.append(",\n".join("  (%s, %s, %s, [%s])" % (_lstr(f), _lstr(fn), _lstr(k), ", ".join(_lstr(g) for g in gs)) for f, fn, k, gs in r["counter"]))
     o.append("]")
